@@ -150,9 +150,9 @@ def step_strategy_long(runner: Runner):
 
 
 STREAMS = {
-    "history": Stream("history", machine=(config_strategy, step_strategy, Runner), quick=1600, thorough=40000, shards_quick=16, shards_thorough=16,
+    "history": Stream("history", machine=(config_strategy, step_strategy, Runner), quick=1600, thorough=12000, shards_quick=16, shards_thorough=16,
                       max_steps=12, max_steps_thorough=30),
-    "long_history": Stream("long_history", machine=(config_strategy_long, step_strategy_long, Runner), quick=96, thorough=3000, shards_quick=16, shards_thorough=16,
+    "long_history": Stream("long_history", machine=(config_strategy_long, step_strategy_long, Runner), quick=96, thorough=800, shards_quick=16, shards_thorough=16,
                            max_steps=70, max_steps_thorough=150),
-    "groups": Stream("groups", oracle=groups_oracle, strategy=groups_strategy, quick=400, thorough=8000, shards_quick=8, shards_thorough=16),
+    "groups": Stream("groups", oracle=groups_oracle, strategy=groups_strategy, quick=400, thorough=3000, shards_quick=8, shards_thorough=16),
 }
